@@ -117,6 +117,10 @@ def unary_op(o: Any, names=None) -> dict:
                 "hasmax": binary.max_columns is not None,
                 "lhs": bool(lhs),
             }
+    from .custom_ops import NAMES
+
+    if type(o) in NAMES:
+        return {"o": "cust", "f": NAMES[type(o)]}
     raise TypeError(f"cannot project operation {o!r}")
 
 
